@@ -1694,6 +1694,8 @@ func main() {
 	model := flag.String("model", "", "path of the extracted model")
 	out := flag.String("out", "-", "")
 	only := flag.Int("only", -1, "run only this simulated case")
+	conc := flag.Int("conc", 600, "concurrent-tier cases (cooperative scheduler)")
+	concOnly := flag.Int("conconly", -1, "run only this concurrent case")
 	replayFile := flag.String("replay", "", "replay file written by bin/check (or a finding's replay object): run its ops")
 	realMiB := flag.Int("real", 3, "MiB per real-socket combination (0: skip the real tier)")
 	flag.Parse()
@@ -1703,6 +1705,7 @@ func main() {
 	rep.Rule = "sim tier: per case a stream Conn (TCP/Unix) on a simulated descriptor, MaxWriteBufferSize in {0,1,100,4096,64Ki-1,64Ki,64Ki+1,200000,1Mi}, 3-16 operations " +
 		"(Write, Writev of 0-8 buffers incl. empty ones, Sendfile of 6 files with offsets 0/mid/last/end/past-end and lengths 0/-1/1/exact/too long, flush, Close) with sizes 0,1,2,...,4095-4097,64Ki+-1,128Ki+-1,1Mi+-1 " +
 		"and kernel scripts (accept all / 1 / n-1 / random / 64Ki+-1, EAGAIN, EINTR bursts, fatal errno, Dup failure), then a drain and Close; non-trivial = a backlog formed; distinct = distinct (op, result, queue length) sequences. " +
+		"concurrent tier: 2-3 writer goroutines (1-2 calls each: Write/Writev/Sendfile with sizes around MaxWriteBufferSize and partial/EAGAIN/EINTR kernel answers) and a flushing goroutine on one Conn under the cooperative scheduler, OnWrittenSize handler that yields, random seeded schedules; results must equal the sequential model's for some order consistent with real time; non-trivial = calls overlapped. " +
 		"real tier: TCP and Unix x LT/ET/ET+ONESHOT, slow reader, Write/Writev/Sendfile mixes, content compared; 3 concurrent writers with self-describing records (contiguity, per-writer order, exactly once)"
 
 	dir, err := ioutil.TempDir("", "connio")
@@ -1750,9 +1753,14 @@ func main() {
 		runSimCase(env, 0, loadReplay(*replayFile))
 	} else if *only >= 0 {
 		runSimCase(env, *only, nil)
+	} else if *concOnly >= 0 {
+		runConcCase(env, *concOnly)
 	} else {
 		for i := 0; i < *n && !rep.TooMany(); i++ {
 			runSimCase(env, i, nil)
+		}
+		for i := 0; i < *conc && !rep.TooMany(); i++ {
+			runConcCase(env, i)
 		}
 		atomic.AddInt64(&env.progress, 1)
 		if *realMiB > 0 && !rep.TooMany() {
